@@ -2459,7 +2459,7 @@ HYGIENE_KINDS = (
     + [f"definition-named-like-native-type/{k}" for k in ("alias", "struct", "message", "signal")]
     + ["field-named-like-descriptor/scalar", "field-named-like-descriptor/struct", "field-named-like-later-type/struct", "field-named-like-later-type/message",
        "field-named-like-python-keyword", "field-named-like-c-keyword", "constant-named-like-field/constant", "constant-named-like-field/string",
-       "constant-named-like-field/imported"]
+       "constant-named-like-field/imported", "id-bool/message-true", "id-bool/message-false", "id-bool/signal-true"]
     # a host id that shares its name with a constant / string constant / alias / struct (separate namespaces for the parser; ONE for the
     # generated Python module, which writes all five under their bare name): of the closure itself, of the core definitions (host id
     # MAX_MODULES, MODULE_ID, DATA_SET), or a user definition called like the core host ids LOCAL_HOST / ALL_HOSTS
@@ -2467,7 +2467,7 @@ HYGIENE_KINDS = (
                                          "string-like-core-host", "alias-like-core-host", "struct-like-core-host")]
 )
 # kinds whose names are identifiers in Python, C, JavaScript and MATLAB alike
-HYGIENE_LEGAL_IDENTIFIERS = tuple(k for k in HYGIENE_KINDS if k.split("/")[0] in ("const-nonfinite", "const-bool", "field-named-like-descriptor",
+HYGIENE_LEGAL_IDENTIFIERS = tuple(k for k in HYGIENE_KINDS if k.split("/")[0] in ("const-nonfinite", "const-bool", "id-bool", "field-named-like-descriptor",
                                                                                  "field-named-like-later-type", "constant-named-like-field", "host-shares-name"))
 
 
@@ -2636,6 +2636,15 @@ def add_hygiene(program: Program, ch: Chooser, kind: Optional[str] = None) -> Op
             else:
                 new.append(Def("struct", nm, path, fields=[fs("a", "int32"), fs("b", "int32")]))
                 mfields = [fs("seq", "double"), fs("one", nm), fs("two", f"{nm}[2]")]
+        info["name"] = nm
+    elif head == "id-bool":
+        # a YAML bool where a message id belongs (bool is an int for Python): written verbatim it is no number in C / JavaScript
+        nm = ctx.fresh_name()
+        val = {"true": True, "false": False}[sub.split("-")[-1]]
+        if sub.startswith("signal"):
+            new.append(Def("signal", nm, path, id=val, flags=["signal", "hygiene"]))
+        else:
+            new.append(Def("message", nm, path, id=val, fields=[fs("a", "int32"), fs("b", "int32")], flags=["message", "hygiene"]))
         info["name"] = nm
     else:  # pragma: no cover
         raise ValueError(kind)
